@@ -315,7 +315,7 @@ def rule_order(run, prog):
         for var, calls in seqs.items():
             calls.sort(key=lambda c: (c.lineno, c.col_offset))
             creations = [n for n in walk_fn(fn.node) if isinstance(n, ast.Assign) and any(
-                isinstance(t, ast.Name) and t.id == var for t in n.targets) and _is_error_ctor(n.value)]
+                isinstance(t, ast.Name) and t.id == var for t in n.targets)]        # constructor or a helper that returns one
 
             def loop_after_creation(c):
                 for a in ancestors(c):
